@@ -3,9 +3,14 @@
    Model/Arith.v transcribes the integer side of CompiledPredicate::eval_value / eval_binary_op /
    eval_unary_op (src/sql/predicate.rs), the integer paths of src/sql/functions/numeric.rs and the
    control-flow functions of src/sql/functions/system.rs; [exact] / [fn_exact] are the documented
-   definitions on unbounded integers (Spec). *)
+   definitions on unbounded integers (Spec).
+   Model/Utf8.v is UTF-8 (what Rust's str <-> char conversions do); Model/StrFun.v transcribes
+   src/sql/functions/string.rs on byte strings, [str_exact] is the character-level Spec.
+   Model/DateFun.v transcribes the eval_* wrappers of src/sql/functions/datetime.rs around the helpers
+   REGENERATED from that file (Gen/CalFunc.v); the Spec is the calendar of Model/Calendar.v (C41). *)
 From Coq Require Import ZArith List Bool.
-From TV Require Import Lib.MachInt Model.Arith Proof.Arith.
+From TV Require Import Lib.MachInt Model.Arith Model.Utf8 Model.StrFun Model.Calendar Model.DateFun.
+From TV Require Import Proof.Arith Proof.Utf8 Proof.StrFind Proof.StrFun Proof.DateFun.
 Import ListNotations.
 Open Scope Z_scope.
 
@@ -86,7 +91,193 @@ Theorem fn_refuted :
   nfn_class FRound [VInt 9007199254740993] = 3 /\ nfn_class FAbs [VInt i64_min] = 1.
 Proof. exact fn_refuted_l. Qed.
 
-(* non-vacuity: hypotheses are met by non-trivial expressions, every kind of outcome occurs *)
+(* ---------------------------------------------------------------- UTF-8 *)
+(* encode / decode are inverse bijections between lists of Unicode scalar values and the byte strings
+   the decoder accepts (= the byte strings a Rust `str` can hold) *)
+Theorem utf8_roundtrip : forall cps, cps_ok cps = true -> decode_utf8 (encode_utf8 cps) = Some cps.
+Proof. exact decode_encode_l. Qed.
+
+Theorem utf8_decode_valid : forall b cps, decode_utf8 b = Some cps -> encode_utf8 cps = b /\ cps_ok cps = true.
+Proof. exact decode_valid_l. Qed.
+
+Theorem utf8_encode_bytes : forall cps, cps_ok cps = true -> bytes_ok (encode_utf8 cps) = true.
+Proof. exact encode_bytes_l. Qed.
+
+(* self-synchronisation: searching the bytes of an encoded needle in the bytes of an encoded haystack finds
+   the first CHARACTER-level occurrence, at the byte offset of the characters before it *)
+Theorem utf8_find_self_sync : forall n h i, cps_ok n = true -> cps_ok h = true ->
+  find_from (encode_utf8 n) (encode_utf8 h) i =
+  option_map (fun pre => i + blen (encode_utf8 pre)) (find_pre n h).
+Proof. exact find_bytes_chars. Qed.
+
+(* ---------------------------------------------------------------- string functions, every valid UTF-8 input *)
+Theorem char_length_counts_chars : forall cs, cps_ok cs = true ->
+  eval_sfn SCharLength [VText (encode_utf8 cs)] = OVal (VInt (zlen cs)).
+Proof. exact char_length_l. Qed.
+
+(* LENGTH is documented as the byte length: it equals the character count exactly on ASCII *)
+Theorem length_counts_bytes : forall cs, cps_ok cs = true ->
+  eval_sfn SLength [VText (encode_utf8 cs)] = OVal (VInt (blen (encode_utf8 cs))) /\
+  zlen cs <= blen (encode_utf8 cs) /\
+  (blen (encode_utf8 cs) = zlen cs <-> is_ascii cs = true).
+Proof. exact length_bytes_l. Qed.
+
+Theorem slicing_on_chars : forall cs n, cps_ok cs = true ->
+  eval_sfn SLeft [VText (encode_utf8 cs); VInt n] = OVal (VText (encode_utf8 (if n <? 0 then [] else take_z n cs))) /\
+  eval_sfn SRight [VText (encode_utf8 cs); VInt n] =
+    OVal (VText (encode_utf8 (if n <? 0 then [] else skip_z (zlen cs - Z.min n (zlen cs)) cs))) /\
+  eval_sfn SReverse [VText (encode_utf8 cs)] = OVal (VText (encode_utf8 (rev cs))).
+Proof. exact slicing_l. Qed.
+
+Theorem substr_on_chars : forall cs pos len, cps_ok cs = true -> pos <> i64_min ->
+  eval_sfn SSubstr [VText (encode_utf8 cs); VInt pos; VInt len] =
+    OVal (VText (encode_utf8 (
+      if pos =? 0 then [] else
+      let start := if 0 <? pos then pos - 1 else Z.max 0 (zlen cs + pos) in
+      if len <? 0 then [] else take_z len (skip_z start cs)))) /\
+  eval_sfn SSubstr [VText (encode_utf8 cs); VInt pos] =
+    OVal (VText (encode_utf8 (
+      if pos =? 0 then [] else skip_z (if 0 <? pos then pos - 1 else Z.max 0 (zlen cs + pos)) cs))).
+Proof. exact substr_l. Qed.
+
+Theorem substr_spec_ok : forall cs pos len, cps_ok cs = true -> pos <> i64_min ->
+  str_obs_ok (str_exact SSubstr [VText (encode_utf8 cs); VInt pos; VInt len])
+             (eval_sfn SSubstr [VText (encode_utf8 cs); VInt pos; VInt len]) = true /\
+  str_obs_ok (str_exact SSubstr [VText (encode_utf8 cs); VInt pos])
+             (eval_sfn SSubstr [VText (encode_utf8 cs); VInt pos]) = true.
+Proof. exact substr_spec_ok_l. Qed.
+
+(* INSTR answers with the BYTE offset of the match ... *)
+Theorem instr_byte_offset : forall h n, cps_ok h = true -> cps_ok n = true ->
+  eval_sfn SInstr [VText (encode_utf8 h); VText (encode_utf8 n)] =
+    OVal (VInt (match find_pre n h with Some pre => blen (encode_utf8 pre) + 1 | None => 0 end)).
+Proof. exact instr_l. Qed.
+
+(* ... the character position when only one-byte characters precede the match (class 0) ... *)
+Theorem instr_class0_correct : forall h n, cps_ok h = true -> cps_ok n = true ->
+  sfn_class SInstr [VText (encode_utf8 h); VText (encode_utf8 n)] = 0 ->
+  eval_sfn SInstr [VText (encode_utf8 h); VText (encode_utf8 n)] =
+    OVal (VInt (match find_pre n h with Some pre => zlen pre + 1 | None => 0 end)) /\
+  str_obs_ok (str_exact SInstr [VText (encode_utf8 h); VText (encode_utf8 n)])
+             (eval_sfn SInstr [VText (encode_utf8 h); VText (encode_utf8 n)]) = true.
+Proof. exact instr_class0_l. Qed.
+
+(* ... and a wrong position in every other case (class 4) *)
+Theorem instr_class4_wrong : forall h n, cps_ok h = true -> cps_ok n = true ->
+  sfn_class SInstr [VText (encode_utf8 h); VText (encode_utf8 n)] = 4 ->
+  str_obs_ok (str_exact SInstr [VText (encode_utf8 h); VText (encode_utf8 n)])
+             (eval_sfn SInstr [VText (encode_utf8 h); VText (encode_utf8 n)]) = false.
+Proof. exact instr_class4_wrong_l. Qed.
+
+(* LOCATE converts the byte offset back by slicing and counting: the slice always ends on a character
+   boundary (no panic) and the answer is the character position *)
+Theorem locate_on_chars : forall n h start, cps_ok n = true -> cps_ok h = true ->
+  eval_sfn SLocate [VText (encode_utf8 n); VText (encode_utf8 h); VInt start] =
+    OVal (VInt (if start <? 1 then 0 else if zlen h <=? start - 1 then 0
+                else match find_pre n (skip_z (start - 1) h) with Some pre => zlen pre + start | None => 0 end)) /\
+  eval_sfn SLocate [VText (encode_utf8 n); VText (encode_utf8 h)] =
+    OVal (VInt (if zlen h <=? 0 then 0 else match find_pre n h with Some pre => zlen pre + 1 | None => 0 end)).
+Proof. exact locate_l. Qed.
+
+Theorem locate_spec_ok : forall n h start, cps_ok n = true -> cps_ok h = true ->
+  str_obs_ok (str_exact SLocate [VText (encode_utf8 n); VText (encode_utf8 h); VInt start])
+             (eval_sfn SLocate [VText (encode_utf8 n); VText (encode_utf8 h); VInt start]) = true /\
+  str_obs_ok (str_exact SLocate [VText (encode_utf8 n); VText (encode_utf8 h)])
+             (eval_sfn SLocate [VText (encode_utf8 n); VText (encode_utf8 h)]) = true.
+Proof. exact locate_spec_ok_l. Qed.
+
+(* LPAD / RPAD cut or fill to exactly n characters *)
+Theorem pad_on_chars : forall cs pcs n, cps_ok cs = true -> cps_ok pcs = true -> 0 <= n <= max_model ->
+  (n <= zlen cs ->
+     eval_sfn SLpad [VText (encode_utf8 cs); VInt n; VText (encode_utf8 pcs)] = OVal (VText (encode_utf8 (take_z n cs))) /\
+     eval_sfn SRpad [VText (encode_utf8 cs); VInt n; VText (encode_utf8 pcs)] = OVal (VText (encode_utf8 (take_z n cs)))) /\
+  (zlen cs < n -> pcs <> [] ->
+     eval_sfn SLpad [VText (encode_utf8 cs); VInt n; VText (encode_utf8 pcs)] =
+       OVal (VText (encode_utf8 (cycle pcs (n - zlen cs) ++ cs))) /\
+     eval_sfn SRpad [VText (encode_utf8 cs); VInt n; VText (encode_utf8 pcs)] =
+       OVal (VText (encode_utf8 (cs ++ cycle pcs (n - zlen cs)))) /\
+     zlen (cycle pcs (n - zlen cs) ++ cs) = n /\ zlen (cs ++ cycle pcs (n - zlen cs)) = n).
+Proof. exact pad_l. Qed.
+
+Theorem trim_on_chars : forall cs, cps_ok cs = true ->
+  eval_sfn STrim [VText (encode_utf8 cs)] = OVal (VText (encode_utf8 (trim_by is_ws cs))) /\
+  eval_sfn SLtrim [VText (encode_utf8 cs)] = OVal (VText (encode_utf8 (trim_start_by is_ws cs))) /\
+  eval_sfn SRtrim [VText (encode_utf8 cs)] = OVal (VText (encode_utf8 (trim_end_by is_ws cs))).
+Proof. exact trim_l. Qed.
+
+Theorem case_ascii : forall cs, is_ascii cs = true ->
+  eval_sfn SUpper [VText (encode_utf8 cs)] = OVal (VText (map ascii_up cs)) /\
+  eval_sfn SLower [VText (encode_utf8 cs)] = OVal (VText (map ascii_low cs)).
+Proof. exact case_ascii_l. Qed.
+
+Theorem concat_correct : forall a b, eval_sfn SConcat [VText (encode_utf8 a); VText (encode_utf8 b)] = OVal (VText (encode_utf8 (a ++ b))) /\
+  eval_sfn SConcat [VText (encode_utf8 a); VNull] = OVal VNull /\ eval_sfn SConcat [VNull; VText (encode_utf8 b)] = OVal VNull.
+Proof. exact concat_l. Qed.
+
+Theorem str_null_in_null_out : forall s n p,
+  to_sql (eval_sfn SLength [VNull]) = OVal VNull /\ to_sql (eval_sfn SCharLength [VNull]) = OVal VNull /\
+  to_sql (eval_sfn SReverse [VNull]) = OVal VNull /\ to_sql (eval_sfn SUpper [VNull]) = OVal VNull /\
+  to_sql (eval_sfn SLeft [VNull; VInt n]) = OVal VNull /\ to_sql (eval_sfn SLeft [VText s; VNull]) = OVal VNull /\
+  to_sql (eval_sfn SRight [VNull; VInt n]) = OVal VNull /\ to_sql (eval_sfn SRight [VText s; VNull]) = OVal VNull /\
+  to_sql (eval_sfn SSubstr [VNull; VInt n]) = OVal VNull /\ to_sql (eval_sfn SSubstr [VText s; VNull]) = OVal VNull /\
+  to_sql (eval_sfn SInstr [VNull; VText p]) = OVal VNull /\ to_sql (eval_sfn SInstr [VText s; VNull]) = OVal VNull /\
+  to_sql (eval_sfn SLocate [VNull; VText p]) = OVal VNull /\ to_sql (eval_sfn SLocate [VText s; VNull]) = OVal VNull /\
+  to_sql (eval_sfn SLpad [VNull; VInt n; VText p]) = OVal VNull /\ to_sql (eval_sfn SLpad [VText s; VNull; VText p]) = OVal VNull /\
+  to_sql (eval_sfn SLpad [VText s; VInt n; VNull]) = OVal VNull /\ to_sql (eval_sfn SRpad [VText s; VInt n; VNull]) = OVal VNull /\
+  to_sql (eval_sfn SRepeat [VNull; VInt n]) = OVal VNull /\ to_sql (eval_sfn SRepeat [VText s; VNull]) = OVal VNull /\
+  to_sql (eval_sfn STrim [VNull]) = OVal VNull /\ to_sql (eval_sfn SStrcmp [VText s; VNull]) = OVal VNull.
+Proof. exact str_null_l. Qed.
+
+(* the property does NOT hold in general: INSTR('ea' with e-acute, 'a') = 3 (character position 2);
+   SUBSTR('abc', i64::MIN) and LPAD('a', -1, 'x') panic; SUBSTR('abc', 2, NULL) = 'bc' *)
+Theorem str_refuted :
+  eval_sfn SInstr [VText [195; 169; 97]; VText [97]] = OVal (VInt 3) /\
+  str_exact SInstr [VText [195; 169; 97]; VText [97]] = SInt 2 /\ sfn_class SInstr [VText [195; 169; 97]; VText [97]] = 4 /\
+  eval_sfn SSubstr [VText [97; 98; 99]; VInt i64_min] = OPanic /\ sfn_class SSubstr [VText [97; 98; 99]; VInt i64_min] = 5 /\
+  eval_sfn SLpad [VText [97]; VInt (-1); VText [120]] = OPanic /\ sfn_class SLpad [VText [97]; VInt (-1); VText [120]] = 6 /\
+  eval_sfn SSubstr [VText [97; 98; 99]; VInt 2; VNull] = OVal (VText [98; 99]) /\
+  str_exact SSubstr [VText [97; 98; 99]; VInt 2; VNull] = SNull /\ sfn_class SSubstr [VText [97; 98; 99]; VInt 2; VNull] = 7.
+Proof. exact str_refuted_l. Qed.
+
+(* ---------------------------------------------------------------- date functions, every date of the years 1..9999 *)
+Theorem date_fields : forall y m d, real_date y m d = true ->
+  eval_dfn DYear [DDate y m d] = OVal (VInt y) /\ eval_dfn DMonth [DDate y m d] = OVal (VInt m) /\
+  eval_dfn DDay [DDate y m d] = OVal (VInt d).
+Proof. exact date_fields_l. Qed.
+
+(* DAYOFWEEK (1 = Sunday), DAYOFYEAR, TO_DAYS, LAST_DAY follow the proleptic Gregorian calendar *)
+Theorem date_calendar : forall y m d, real_date y m d = true ->
+  eval_dfn DDayOfWeek [DDate y m d] = OVal (VInt (weekday y m d + 1)) /\
+  eval_dfn DDayOfYear [DDate y m d] = OVal (VInt (ordinal_day y m d)) /\
+  eval_dfn DToDays [DDate y m d] = OVal (VInt (rata_die y m d + 1)) /\
+  eval_dfn DLastDay [DDate y m d] = OVal (VText (fmt_date y m (dim y m))).
+Proof. exact date_calendar_l. Qed.
+
+Theorem datediff_correct : forall y1 m1 d1 y2 m2 d2, real_date y1 m1 d1 = true -> real_date y2 m2 d2 = true ->
+  eval_dfn DDateDiff [DDate y1 m1 d1; DDate y2 m2 d2] = OVal (VInt (rata_die y1 m1 d1 - rata_die y2 m2 d2)).
+Proof. exact datediff_l. Qed.
+
+(* adding (subtracting) the number of days that separates two dates of the calendar to the first yields the second *)
+Theorem date_add_correct : forall y m d y' m' d', real_date y m d = true -> real_date y' m' d' = true ->
+  eval_dfn DDateAdd [DDate y m d; DNum (rata_die y' m' d' - rata_die y m d)] = OVal (VText (fmt_date y' m' d')) /\
+  eval_dfn DDateSub [DDate y m d; DNum (rata_die y m d - rata_die y' m' d')] = OVal (VText (fmt_date y' m' d')).
+Proof. exact date_add_l. Qed.
+
+Theorem from_days_inverts_to_days : forall y m d, real_date y m d = true ->
+  eval_dfn DFromDays [DNum (rata_die y m d + 1)] = OVal (VText (fmt_date y m d)).
+Proof. exact from_days_to_days_l. Qed.
+
+Theorem date_null_in_null_out : forall f rest, to_sql (eval_dfn f (DNullA :: rest)) = OVal VNull.
+Proof. exact date_null_l. Qed.
+
+(* huge day counts panic (unchecked i64 arithmetic in eval_date_add / days_to_date) *)
+Theorem date_refuted :
+  eval_dfn DDateAdd [DDate 2024 1 1; DNum i64_max] = OPanic /\ dfn_class DDateAdd [DDate 2024 1 1; DNum i64_max] = 8 /\
+  eval_dfn DFromDays [DNum i64_max] = OPanic /\ dfn_class DFromDays [DNum i64_max] = 8 /\
+  eval_dfn DDateSub [DDate 2024 1 1; DNum 92233720368547758] = OPanic.
+Proof. exact date_refuted_l. Qed.
+
+(* non-vacuity: hypotheses are met by non-trivial inputs, every kind of outcome occurs *)
 Example c20_arith_witness :
   let e := EBin Add (EBin Mul (ELit 3037000499) (ELit 3037000499)) (EUn Neg (EBin Pow (ELit 2) (ELit 62))) in
   wf e = true /\ arith_class e = 0 /\ exact e = XInt 4611686012498861097 /\ eval e = OVal (VInt 4611686012498861097) /\
@@ -96,17 +287,62 @@ Example c20_arith_witness :
   arith_class (EBin Add (ELit i64_max) (ELit 1)) = 1.
 Proof. vm_compute. repeat split. Qed.
 
+(* 'h e-acute l l o' + combining acute + U+1D11E: 7 characters, 13 bytes; LEFT 2 = 'h e-acute'; INSTR of 'l' is right only because ... it is not: class 4 *)
+Example c20_str_witness :
+  let cs := [104; 233; 108; 108; 111; 769; 119070] in
+  cps_ok cs = true /\ encode_utf8 cs = [104; 195; 169; 108; 108; 111; 204; 129; 240; 157; 132; 158] /\
+  eval_sfn SCharLength [VText (encode_utf8 cs)] = OVal (VInt 7) /\ eval_sfn SLength [VText (encode_utf8 cs)] = OVal (VInt 12) /\
+  eval_sfn SLeft [VText (encode_utf8 cs); VInt 2] = OVal (VText [104; 195; 169]) /\
+  sfn_class SInstr [VText (encode_utf8 cs); VText [108]] = 4 /\ sfn_class SInstr [VText (encode_utf8 cs); VText [104]] = 0 /\
+  eval_sfn SLocate [VText [108]; VText (encode_utf8 cs)] = OVal (VInt 3) /\
+  decode_utf8 [192; 128] = None /\ decode_utf8 [237; 160; 128] = None /\ decode_utf8 [244; 144; 128; 128] = None /\ decode_utf8 [226; 130] = None.
+Proof. vm_compute. repeat split. Qed.
+
+Example c20_date_witness :
+  real_date 2024 2 29 = true /\ real_date 2023 2 29 = false /\ real_date 9999 12 31 = true /\
+  eval_dfn DDateAdd [DDate 2024 2 28; DNum 2] = OVal (VText (fmt_date 2024 3 1)) /\
+  rata_die 2024 3 1 - rata_die 2024 2 28 = 2 /\
+  eval_dfn DDayOfWeek [DDate 2024 2 29] = OVal (VInt 5) /\ eval_dfn DLastDay [DDate 1900 2 1] = OVal (VText (fmt_date 1900 2 28)).
+Proof. vm_compute. repeat split. Qed.
+
 Check arith_in_range_correct : forall e z, wf e = true -> arith_class e = 0 -> exact e = XInt z -> eval e = OVal (VInt z).
 Check arith_null : forall e, wf e = true -> arith_class e = 0 -> (exact e = XNullP \/ exact e = XDivZ \/ exact e = XAny) -> to_sql (eval e) = OVal VNull.
 Check arith_class0_ok : forall e, wf e = true -> arith_class e = 0 -> exact e <> XOver /\ obs_ok (exact e) (to_sql (eval e)) = true.
 Check div_zero_null : forall a, in_i64 a = true -> eval_bin Div (VInt a) (VInt 0) = ONone /\ eval_bin Rem (VInt a) (VInt 0) = ONone.
-Check arith_no_panic_refuted : eval (EBin Add (ELit i64_max) (ELit 1)) = OPanic /\ _.
-Check pow_exponent_truncated : eval (EBin Pow (ELit 0) (ELit 4294967296)) = OVal (VInt 1) /\ _.
-Check unary_fn_correct : forall n, in_i64 n = true -> (n <> i64_min -> eval_nfn FAbs [VInt n] = OVal (VInt (Z.abs n))) /\ _.
-Check mod_div_correct : forall a b, in_i64 a = true -> in_i64 b = true -> (b = 0 -> eval_nfn FMod [VInt a; VInt b] = OVal VNull /\ eval_nfn FDivI [VInt a; VInt b] = OVal VNull) /\ _.
+Check arith_no_panic_refuted : eval (EBin Add (ELit i64_max) (ELit 1)) = OPanic /\ exact (EBin Add (ELit i64_max) (ELit 1)) = XOver /\ eval (EBin Div lit_min (EUn Neg (ELit 1))) = OPanic /\ exact (EBin Div lit_min (EUn Neg (ELit 1))) = XOver /\ eval (EUn Neg lit_min) = OPanic /\ exact (EUn Neg lit_min) = XOver /\ eval (EBin Pow (ELit 2) (ELit 64)) = OPanic /\ exact (EBin Pow (ELit 2) (ELit 64)) = XOver /\ eval (EBin Rem lit_min (EUn Neg (ELit 1))) = OPanic /\ exact (EBin Rem lit_min (EUn Neg (ELit 1))) = XInt 0 /\ eval (EBin Mul (ELit 4294967296) (ELit 4294967296)) = OPanic.
+Check pow_exponent_truncated : eval (EBin Pow (ELit 0) (ELit 4294967296)) = OVal (VInt 1) /\ exact (EBin Pow (ELit 0) (ELit 4294967296)) = XInt 0 /\ arith_class (EBin Pow (ELit 0) (ELit 4294967296)) = 2.
+Check unary_fn_correct : forall n, in_i64 n = true -> (n <> i64_min -> eval_nfn FAbs [VInt n] = OVal (VInt (Z.abs n))) /\ eval_nfn FSign [VInt n] = OVal (VInt (Z.sgn n)) /\ eval_nfn FCeil [VInt n] = OVal (VInt n) /\ eval_nfn FFloor [VInt n] = OVal (VInt n) /\ (Z.abs n <= 2 ^ 53 -> eval_nfn FRound [VInt n] = OVal (VInt n) /\ eval_nfn FTrunc [VInt n] = OVal (VInt n) /\ eval_nfn FRound [VInt n; VInt 0] = OVal (VInt n) /\ eval_nfn FTrunc [VInt n; VInt 0] = OVal (VInt n)).
+Check mod_div_correct : forall a b, in_i64 a = true -> in_i64 b = true -> (b = 0 -> eval_nfn FMod [VInt a; VInt b] = OVal VNull /\ eval_nfn FDivI [VInt a; VInt b] = OVal VNull) /\ (b <> 0 -> Z.abs a <= 2 ^ 53 -> Z.abs b <= 2 ^ 53 -> eval_nfn FMod [VInt a; VInt b] = OVal (VFltI (Z.rem a b))) /\ (b <> 0 -> ~ (a = i64_min /\ b = -1) -> eval_nfn FDivI [VInt a; VInt b] = OVal (VInt (Z.quot a b))).
 Check greatest_least_correct : forall n t, in_i64 n = true -> Forall (fun v => exists k, v = VInt k /\ in_i64 k = true) t -> eval_nfn FGreatest (VInt n :: t) = OVal (VInt (fold_left Z.max (ints_of t) n)) /\ eval_nfn FLeast (VInt n :: t) = OVal (VInt (fold_left Z.min (ints_of t) n)).
-Check fn_null : eval_nfn FAbs [VNull] = OVal VNull /\ _.
-Check fn_refuted : eval_nfn FAbs [VInt i64_min] = OPanic /\ _.
+Check fn_null : eval_nfn FAbs [VNull] = OVal VNull /\ eval_nfn FSign [VNull] = OVal VNull /\ eval_nfn FCeil [VNull] = OVal VNull /\ eval_nfn FFloor [VNull] = OVal VNull /\ (forall v, to_sql (eval_nfn FMod [VNull; v]) = OVal VNull \/ eval_nfn FMod [VNull; v] = OUnmod) /\ to_sql (eval_nfn FRound [VNull]) = OVal VNull /\ to_sql (eval_nfn FTrunc [VNull]) = OVal VNull.
+Check fn_refuted : eval_nfn FAbs [VInt i64_min] = OPanic /\ fn_exact FAbs [VInt i64_min] = XOver /\ eval_nfn FDivI [VInt i64_min; VInt (-1)] = OPanic /\ fn_exact FDivI [VInt i64_min; VInt (-1)] = XOver /\ eval_nfn FRound [VInt 9007199254740993] = OVal (VInt 9007199254740992) /\ eval_nfn FMod [VInt 9007199254740993; VInt 2] = OVal (VFltI 0) /\ fn_exact FMod [VInt 9007199254740993; VInt 2] = XInt 1 /\ nfn_class FRound [VInt 9007199254740993] = 3 /\ nfn_class FAbs [VInt i64_min] = 1.
+Check utf8_roundtrip : forall cps, cps_ok cps = true -> decode_utf8 (encode_utf8 cps) = Some cps.
+Check utf8_decode_valid : forall b cps, decode_utf8 b = Some cps -> encode_utf8 cps = b /\ cps_ok cps = true.
+Check utf8_encode_bytes : forall cps, cps_ok cps = true -> bytes_ok (encode_utf8 cps) = true.
+Check utf8_find_self_sync : forall n h i, cps_ok n = true -> cps_ok h = true -> find_from (encode_utf8 n) (encode_utf8 h) i = option_map (fun pre => i + blen (encode_utf8 pre)) (find_pre n h).
+Check char_length_counts_chars : forall cs, cps_ok cs = true -> eval_sfn SCharLength [VText (encode_utf8 cs)] = OVal (VInt (zlen cs)).
+Check length_counts_bytes : forall cs, cps_ok cs = true -> eval_sfn SLength [VText (encode_utf8 cs)] = OVal (VInt (blen (encode_utf8 cs))) /\ zlen cs <= blen (encode_utf8 cs) /\ (blen (encode_utf8 cs) = zlen cs <-> is_ascii cs = true).
+Check slicing_on_chars : forall cs n, cps_ok cs = true -> eval_sfn SLeft [VText (encode_utf8 cs); VInt n] = OVal (VText (encode_utf8 (if n <? 0 then [] else take_z n cs))) /\ eval_sfn SRight [VText (encode_utf8 cs); VInt n] = OVal (VText (encode_utf8 (if n <? 0 then [] else skip_z (zlen cs - Z.min n (zlen cs)) cs))) /\ eval_sfn SReverse [VText (encode_utf8 cs)] = OVal (VText (encode_utf8 (rev cs))).
+Check substr_on_chars : forall cs pos len, cps_ok cs = true -> pos <> i64_min -> eval_sfn SSubstr [VText (encode_utf8 cs); VInt pos; VInt len] = OVal (VText (encode_utf8 ( if pos =? 0 then [] else let start := if 0 <? pos then pos - 1 else Z.max 0 (zlen cs + pos) in if len <? 0 then [] else take_z len (skip_z start cs)))) /\ eval_sfn SSubstr [VText (encode_utf8 cs); VInt pos] = OVal (VText (encode_utf8 ( if pos =? 0 then [] else skip_z (if 0 <? pos then pos - 1 else Z.max 0 (zlen cs + pos)) cs))).
+Check substr_spec_ok : forall cs pos len, cps_ok cs = true -> pos <> i64_min -> str_obs_ok (str_exact SSubstr [VText (encode_utf8 cs); VInt pos; VInt len]) (eval_sfn SSubstr [VText (encode_utf8 cs); VInt pos; VInt len]) = true /\ str_obs_ok (str_exact SSubstr [VText (encode_utf8 cs); VInt pos]) (eval_sfn SSubstr [VText (encode_utf8 cs); VInt pos]) = true.
+Check instr_byte_offset : forall h n, cps_ok h = true -> cps_ok n = true -> eval_sfn SInstr [VText (encode_utf8 h); VText (encode_utf8 n)] = OVal (VInt (match find_pre n h with Some pre => blen (encode_utf8 pre) + 1 | None => 0 end)).
+Check instr_class0_correct : forall h n, cps_ok h = true -> cps_ok n = true -> sfn_class SInstr [VText (encode_utf8 h); VText (encode_utf8 n)] = 0 -> eval_sfn SInstr [VText (encode_utf8 h); VText (encode_utf8 n)] = OVal (VInt (match find_pre n h with Some pre => zlen pre + 1 | None => 0 end)) /\ str_obs_ok (str_exact SInstr [VText (encode_utf8 h); VText (encode_utf8 n)]) (eval_sfn SInstr [VText (encode_utf8 h); VText (encode_utf8 n)]) = true.
+Check instr_class4_wrong : forall h n, cps_ok h = true -> cps_ok n = true -> sfn_class SInstr [VText (encode_utf8 h); VText (encode_utf8 n)] = 4 -> str_obs_ok (str_exact SInstr [VText (encode_utf8 h); VText (encode_utf8 n)]) (eval_sfn SInstr [VText (encode_utf8 h); VText (encode_utf8 n)]) = false.
+Check locate_on_chars : forall n h start, cps_ok n = true -> cps_ok h = true -> eval_sfn SLocate [VText (encode_utf8 n); VText (encode_utf8 h); VInt start] = OVal (VInt (if start <? 1 then 0 else if zlen h <=? start - 1 then 0 else match find_pre n (skip_z (start - 1) h) with Some pre => zlen pre + start | None => 0 end)) /\ eval_sfn SLocate [VText (encode_utf8 n); VText (encode_utf8 h)] = OVal (VInt (if zlen h <=? 0 then 0 else match find_pre n h with Some pre => zlen pre + 1 | None => 0 end)).
+Check locate_spec_ok : forall n h start, cps_ok n = true -> cps_ok h = true -> str_obs_ok (str_exact SLocate [VText (encode_utf8 n); VText (encode_utf8 h); VInt start]) (eval_sfn SLocate [VText (encode_utf8 n); VText (encode_utf8 h); VInt start]) = true /\ str_obs_ok (str_exact SLocate [VText (encode_utf8 n); VText (encode_utf8 h)]) (eval_sfn SLocate [VText (encode_utf8 n); VText (encode_utf8 h)]) = true.
+Check pad_on_chars : forall cs pcs n, cps_ok cs = true -> cps_ok pcs = true -> 0 <= n <= max_model -> (n <= zlen cs -> eval_sfn SLpad [VText (encode_utf8 cs); VInt n; VText (encode_utf8 pcs)] = OVal (VText (encode_utf8 (take_z n cs))) /\ eval_sfn SRpad [VText (encode_utf8 cs); VInt n; VText (encode_utf8 pcs)] = OVal (VText (encode_utf8 (take_z n cs)))) /\ (zlen cs < n -> pcs <> [] -> eval_sfn SLpad [VText (encode_utf8 cs); VInt n; VText (encode_utf8 pcs)] = OVal (VText (encode_utf8 (cycle pcs (n - zlen cs) ++ cs))) /\ eval_sfn SRpad [VText (encode_utf8 cs); VInt n; VText (encode_utf8 pcs)] = OVal (VText (encode_utf8 (cs ++ cycle pcs (n - zlen cs)))) /\ zlen (cycle pcs (n - zlen cs) ++ cs) = n /\ zlen (cs ++ cycle pcs (n - zlen cs)) = n).
+Check trim_on_chars : forall cs, cps_ok cs = true -> eval_sfn STrim [VText (encode_utf8 cs)] = OVal (VText (encode_utf8 (trim_by is_ws cs))) /\ eval_sfn SLtrim [VText (encode_utf8 cs)] = OVal (VText (encode_utf8 (trim_start_by is_ws cs))) /\ eval_sfn SRtrim [VText (encode_utf8 cs)] = OVal (VText (encode_utf8 (trim_end_by is_ws cs))).
+Check case_ascii : forall cs, is_ascii cs = true -> eval_sfn SUpper [VText (encode_utf8 cs)] = OVal (VText (map ascii_up cs)) /\ eval_sfn SLower [VText (encode_utf8 cs)] = OVal (VText (map ascii_low cs)).
+Check concat_correct : forall a b, eval_sfn SConcat [VText (encode_utf8 a); VText (encode_utf8 b)] = OVal (VText (encode_utf8 (a ++ b))) /\ eval_sfn SConcat [VText (encode_utf8 a); VNull] = OVal VNull /\ eval_sfn SConcat [VNull; VText (encode_utf8 b)] = OVal VNull.
+Check str_null_in_null_out : forall s n p, to_sql (eval_sfn SLength [VNull]) = OVal VNull /\ to_sql (eval_sfn SCharLength [VNull]) = OVal VNull /\ to_sql (eval_sfn SReverse [VNull]) = OVal VNull /\ to_sql (eval_sfn SUpper [VNull]) = OVal VNull /\ to_sql (eval_sfn SLeft [VNull; VInt n]) = OVal VNull /\ to_sql (eval_sfn SLeft [VText s; VNull]) = OVal VNull /\ to_sql (eval_sfn SRight [VNull; VInt n]) = OVal VNull /\ to_sql (eval_sfn SRight [VText s; VNull]) = OVal VNull /\ to_sql (eval_sfn SSubstr [VNull; VInt n]) = OVal VNull /\ to_sql (eval_sfn SSubstr [VText s; VNull]) = OVal VNull /\ to_sql (eval_sfn SInstr [VNull; VText p]) = OVal VNull /\ to_sql (eval_sfn SInstr [VText s; VNull]) = OVal VNull /\ to_sql (eval_sfn SLocate [VNull; VText p]) = OVal VNull /\ to_sql (eval_sfn SLocate [VText s; VNull]) = OVal VNull /\ to_sql (eval_sfn SLpad [VNull; VInt n; VText p]) = OVal VNull /\ to_sql (eval_sfn SLpad [VText s; VNull; VText p]) = OVal VNull /\ to_sql (eval_sfn SLpad [VText s; VInt n; VNull]) = OVal VNull /\ to_sql (eval_sfn SRpad [VText s; VInt n; VNull]) = OVal VNull /\ to_sql (eval_sfn SRepeat [VNull; VInt n]) = OVal VNull /\ to_sql (eval_sfn SRepeat [VText s; VNull]) = OVal VNull /\ to_sql (eval_sfn STrim [VNull]) = OVal VNull /\ to_sql (eval_sfn SStrcmp [VText s; VNull]) = OVal VNull.
+Check str_refuted : eval_sfn SInstr [VText [195; 169; 97]; VText [97]] = OVal (VInt 3) /\ str_exact SInstr [VText [195; 169; 97]; VText [97]] = SInt 2 /\ sfn_class SInstr [VText [195; 169; 97]; VText [97]] = 4 /\ eval_sfn SSubstr [VText [97; 98; 99]; VInt i64_min] = OPanic /\ sfn_class SSubstr [VText [97; 98; 99]; VInt i64_min] = 5 /\ eval_sfn SLpad [VText [97]; VInt (-1); VText [120]] = OPanic /\ sfn_class SLpad [VText [97]; VInt (-1); VText [120]] = 6 /\ eval_sfn SSubstr [VText [97; 98; 99]; VInt 2; VNull] = OVal (VText [98; 99]) /\ str_exact SSubstr [VText [97; 98; 99]; VInt 2; VNull] = SNull /\ sfn_class SSubstr [VText [97; 98; 99]; VInt 2; VNull] = 7.
+Check date_fields : forall y m d, real_date y m d = true -> eval_dfn DYear [DDate y m d] = OVal (VInt y) /\ eval_dfn DMonth [DDate y m d] = OVal (VInt m) /\ eval_dfn DDay [DDate y m d] = OVal (VInt d).
+Check date_calendar : forall y m d, real_date y m d = true -> eval_dfn DDayOfWeek [DDate y m d] = OVal (VInt (weekday y m d + 1)) /\ eval_dfn DDayOfYear [DDate y m d] = OVal (VInt (ordinal_day y m d)) /\ eval_dfn DToDays [DDate y m d] = OVal (VInt (rata_die y m d + 1)) /\ eval_dfn DLastDay [DDate y m d] = OVal (VText (fmt_date y m (dim y m))).
+Check datediff_correct : forall y1 m1 d1 y2 m2 d2, real_date y1 m1 d1 = true -> real_date y2 m2 d2 = true -> eval_dfn DDateDiff [DDate y1 m1 d1; DDate y2 m2 d2] = OVal (VInt (rata_die y1 m1 d1 - rata_die y2 m2 d2)).
+Check date_add_correct : forall y m d y' m' d', real_date y m d = true -> real_date y' m' d' = true -> eval_dfn DDateAdd [DDate y m d; DNum (rata_die y' m' d' - rata_die y m d)] = OVal (VText (fmt_date y' m' d')) /\ eval_dfn DDateSub [DDate y m d; DNum (rata_die y m d - rata_die y' m' d')] = OVal (VText (fmt_date y' m' d')).
+Check from_days_inverts_to_days : forall y m d, real_date y m d = true -> eval_dfn DFromDays [DNum (rata_die y m d + 1)] = OVal (VText (fmt_date y m d)).
+Check date_null_in_null_out : forall f rest, to_sql (eval_dfn f (DNullA :: rest)) = OVal VNull.
+Check date_refuted : eval_dfn DDateAdd [DDate 2024 1 1; DNum i64_max] = OPanic /\ dfn_class DDateAdd [DDate 2024 1 1; DNum i64_max] = 8 /\ eval_dfn DFromDays [DNum i64_max] = OPanic /\ dfn_class DFromDays [DNum i64_max] = 8 /\ eval_dfn DDateSub [DDate 2024 1 1; DNum 92233720368547758] = OPanic.
 
 Print Assumptions arith_in_range_correct.
 Print Assumptions arith_null.
@@ -119,3 +355,30 @@ Print Assumptions mod_div_correct.
 Print Assumptions greatest_least_correct.
 Print Assumptions fn_null.
 Print Assumptions fn_refuted.
+Print Assumptions utf8_roundtrip.
+Print Assumptions utf8_decode_valid.
+Print Assumptions utf8_encode_bytes.
+Print Assumptions utf8_find_self_sync.
+Print Assumptions char_length_counts_chars.
+Print Assumptions length_counts_bytes.
+Print Assumptions slicing_on_chars.
+Print Assumptions substr_on_chars.
+Print Assumptions substr_spec_ok.
+Print Assumptions instr_byte_offset.
+Print Assumptions instr_class0_correct.
+Print Assumptions instr_class4_wrong.
+Print Assumptions locate_on_chars.
+Print Assumptions locate_spec_ok.
+Print Assumptions pad_on_chars.
+Print Assumptions trim_on_chars.
+Print Assumptions case_ascii.
+Print Assumptions concat_correct.
+Print Assumptions str_null_in_null_out.
+Print Assumptions str_refuted.
+Print Assumptions date_fields.
+Print Assumptions date_calendar.
+Print Assumptions datediff_correct.
+Print Assumptions date_add_correct.
+Print Assumptions from_days_inverts_to_days.
+Print Assumptions date_null_in_null_out.
+Print Assumptions date_refuted.
